@@ -20,7 +20,10 @@ for s in seeds:
         continue
     row = matrix.get(s, {})
     try:
-        for c in checks:
+        # OWN_ONLY=1: only the check of the property the seed was made for (rows keep what earlier runs recorded for the others;
+        # the result goes under the key "own@<commit>" as well, so that the table can tell which machinery produced it)
+        own_only = os.environ.get("OWN_ONLY") == "1"
+        for c in ([s[:3]] if own_only else checks):
             p = subprocess.run(["./check", c], cwd=ROOT, capture_output=True, text=True, timeout=2400)
             v = [l for l in p.stdout.splitlines() if l.startswith("VIOLATION")]
             if not v:
@@ -32,6 +35,8 @@ for s in seeds:
     finally:
         subprocess.run(["git", "-C", REPO, "checkout", "--", "."])
         subprocess.run([sys.executable, "-c", "from lib import core; core.translate()"], cwd=ROOT, capture_output=True)
+    if os.environ.get("OWN_ONLY") == "1":
+        row["own_final"] = row.get(s[:3])
     matrix[s] = row
     json.dump(matrix, open(mpath, "w"), indent=1)
     print(s, row, flush=True)
